@@ -7,10 +7,16 @@ Definition input_C13 : Type := winput * list (list N).
 
 (* per subset: child_nodes, without_modifier, remove_modifier, without_obsolete, remove_obsolete,
    with_replaced_obsolete, replace_obsolete (each a list of ids), gene / omim / orpha id unions,
-   category counts, information content (gene, omim) *)
+   category counts, information content (gene, omim); and, for the three sets that were changed IN PLACE
+   (remove_modifier, remove_obsolete, replace_obsolete) after their aggregates had been asked for once
+   before the change: the gene ids and the information content of the changed set *)
 Definition sobs : Type :=
   list N * list N * list N * list N * list N * list N * list N
-  * list N * list N * list N * list (N * N) * res (N * N).
+  * list N * list N * list N * list (N * N) * res (N * N) * list (res (list N * res (N * N))).
+
+(* the harness evaluates a whole set inside one catch_unwind: a panic anywhere is the outcome of the set *)
+Definition no_panic {A} (r : res A) : res (res A) :=
+  match r with Panic => Panic | Fuel => Fuel | _ => Ok r end.
 
 Definition obs_C13 : Type := res (donto * list (res sobs)).
 
@@ -27,7 +33,12 @@ Definition run_set (tbl : list (N * N)) (o : onto) (s0 : list N) : res sobs :=
   do m <- hs_annot_ids KOmim o s ;;
   do r <- hs_annot_ids KOrpha o s ;;
   do cats <- hs_categories o s ;;
-  Ok (a, b, b', c, c', d, d', g, m, r, cats, hs_information_content (ic32 (table_oracle tbl)) o s).
+  do ic <- no_panic (hs_information_content (ic32 (table_oracle tbl)) o s) ;;
+  (* each of the three follow-up observations sits in its own catch_unwind (a replacement that is not a term
+     of the ontology makes the aggregates of the changed set panic: "HpoTermId must be in Ontology") *)
+  let aft (g' : group) : res (list N * res (N * N)) :=
+    do gs <- hs_annot_ids KGene o g' ;; do ic' <- no_panic (hs_information_content (ic32 (table_oracle tbl)) o g') ;; Ok (gs, ic') in
+  Ok (a, b, b', c, c', d, d', g, m, r, cats, ic, [aft b'; aft c'; aft d']).
 
 Definition run_C13 (i : input_C13) : obs_C13 :=
   let '((w, tbl), sets) := i in
@@ -40,10 +51,17 @@ Definition run_C13 (i : input_C13) : obs_C13 :=
 
 Definition dt (d : donto) (id : N) : option dterm := d_find id d.
 
+Fixpoint forallb2 {A B} (f : A -> B -> bool) (a : list A) (b : list B) : bool :=
+  match a, b with
+  | [], [] => true
+  | x :: a', y :: b' => f x y && forallb2 f a' b'
+  | _, _ => false
+  end.
+
 Definition set_ok (tbl : list (N * N)) (d : donto) (s0 : list N) (r : res sobs) : bool :=
   let s := set_of s0 in
   match r with
-  | Ok (a, b, b', c, c', e, e', g, m, rr, cats, ic) =>
+  | Ok (a, b, b', c, c', e, e', g, m, rr, cats, ic, after) =>
       let ts := somes (map (dt d) s) in
       (Nlen ts =? Nlen s)
       (* child_nodes: members without a descendant in the set *)
@@ -68,14 +86,23 @@ Definition set_ok (tbl : list (N * N)) (d : donto) (s0 : list N) (r : res sobs) 
          | Ok (x, y), Ok x', Ok y' => (x =? x') && (y =? y')
          | _, _, _ => false
          end
+      (* the aggregates of a set changed in place are those of its members now (nothing remembered from
+         before the change) *)
+      && forallb2 (fun (mem' : list N) (rga : res (list N * res (N * N))) =>
+            let ts' := somes (map (dt d) mem') in
+            if Nlen ts' =? Nlen mem' then
+              match rga with
+              | Ok ga =>
+              list_eqb (fst ga) (set_of (concat (map d_genes ts')))
+              && match snd ga, ic32 (table_oracle tbl) (Nlen (do_genes d)) (Nlen (set_of (concat (map d_genes ts')))),
+                       ic32 (table_oracle tbl) (Nlen (do_omim d)) (Nlen (set_of (concat (map d_omim ts')))) with
+                 | Ok (x, y), Ok x', Ok y' => (x =? x') && (y =? y')
+                 | _, _, _ => false
+                 end
+              | _ => false
+              end
+            else true) [b'; c'; e'] after
   | _ => false
-  end.
-
-Fixpoint forallb2 {A B} (f : A -> B -> bool) (a : list A) (b : list B) : bool :=
-  match a, b with
-  | [], [] => true
-  | x :: a', y :: b' => f x y && forallb2 f a' b'
-  | _, _ => false
   end.
 
 Definition spec_C13 (i : input_C13) (o : obs_C13) : bool :=
